@@ -636,6 +636,15 @@ func (x *Exec) createLike(kind nt.Ftype3, dir Ref, name string, target string, e
 	if err != nil {
 		return err
 	}
+	if ex := x.existingFile(dir, name); ex != nil && kind == nt.NF3REG && !excl && st == nt.NFS3_OK {
+		// an UNCHECKED CREATE of an existing file may succeed with that file (RFC 1813); nothing changes then
+		x.LastOK = true
+		x.Log[len(x.Log)-1] += " -> OK on an existing file"
+		if !h.Handle_follows || !bytes.Equal(h.Handle.Data, ex.FH) {
+			return x.errf("UNCHECKED CREATE of the existing file %s succeeded with another object's handle", ex.Path())
+		}
+		return nil
+	}
 	if excl {
 		// an unsupported mode is refused as such, whatever the handle
 		if err := x.status(st, false); err != nil {
@@ -661,6 +670,17 @@ func (x *Exec) Create(dir Ref, name string) error {
 	return x.createLike(nt.NF3REG, dir, name, "", false)
 }
 
+// existingFile: the live regular file that name names in dir, if any.
+func (x *Exec) existingFile(dir Ref, name string) *MNode {
+	if dir.N == nil || !dir.N.IsDir() {
+		return nil
+	}
+	if n := dir.N.Children[name]; n != nil && n.Kind == nt.NF3REG {
+		return n
+	}
+	return nil
+}
+
 // CreateWithSize: a CREATE that carries an initial size among its attributes.  A server may ignore initial
 // attributes (this one does) or honour them; either way the new file has size 0 or the size asked for, a size
 // beyond the announced maximum never comes into being (the request is refused, or the attribute ignored), and what
@@ -678,6 +698,30 @@ func (x *Exec) CreateWithSize(dir Ref, name string, size uint64, guarded bool) e
 			How: nt.Createhow3{Mode: mode, Obj_attributes: nt.Sattr3{Size: nt.Set_size3{Set_it: true, Size: nt.Size3(size)}}}})
 	}); err != nil {
 		return err
+	}
+	if ex := x.existingFile(dir, name); ex != nil && !guarded && res.Status == nt.NFS3_OK {
+		// RFC 1813: an UNCHECKED CREATE of a name that exists may succeed with the existing file (this server
+		// refuses; a server that opens the file instead is as right).  Then it is that file, and its size is what it
+		// was or - within the limit - what the request asked for; what lies beyond old data reads as zeros.
+		x.LastOK = true
+		x.Log[len(x.Log)-1] += " -> OK on an existing file"
+		if !bytes.Equal(res.Resok.Obj.Handle.Data, ex.FH) {
+			return x.errf("UNCHECKED CREATE of the existing file %s succeeded with another object's handle", ex.Path())
+		}
+		var ga nt.GETATTR3res
+		if err := x.call(func() { ga = x.S.API().NFSPROC3_GETATTR(nt.GETATTR3args{Object: nt.Nfs_fh3{Data: ex.FH}}) }); err != nil {
+			return err
+		}
+		got := uint64(ga.Resok.Obj_attributes.Size)
+		if ga.Status != nt.NFS3_OK || (got != ex.Size && got != size) || got > x.M.Lim.MaxFileSize {
+			return x.errf("UNCHECKED CREATE of the existing file %s (size %d) with size %d succeeded; its size is now %d (status %d)", ex.Path(), ex.Size, size, got, ga.Status)
+		}
+		if got != ex.Size {
+			ex.Truncate(got)
+			x.Mutations++
+			x.Unflushed = false
+		}
+		return nil
 	}
 	if legal && size > x.M.Lim.MaxFileSize && res.Status != nt.NFS3_OK {
 		x.LastOK = false
